@@ -26,9 +26,9 @@ Proof. intros Ex Ey q q'. unfold R, is_cell, cell. rewrite Ex, Ey. reflexivity. 
 Lemma detach_idem st i : i < length (seqs st) -> detach (detach st i) i = detach st i.
 Proof. intros Hi. unfold detach at 1. rewrite detach_not_view by auto. reflexivity. Qed.
 
-Lemma extend_view_moved st i bpr pre els f : wf st -> i < length (seqs st) ->
+Lemma extend_gen_view_moved st i bpr pre els f x : wf st -> i < length (seqs st) ->
   is_view (getseq st i) = true ->
-  extend st i bpr pre els f = st \/ length (heap st) <= sbuf (getseq (extend st i bpr pre els f) i).
+  extend_gen st i bpr pre els f x = st \/ length (heap st) <= sbuf (getseq (extend_gen st i bpr pre els f x) i).
 Proof.
   intros W Hi Hv.
   destruct pre.
@@ -36,15 +36,15 @@ Proof.
     destruct (detach_spec st i W Hi) as (Wa & F0 & Va & _ & _ & _ & _ & _ & VW0). cbv zeta in *.
     set (sa := detach st i) in *.
     assert (Hia : i < length (seqs sa)) by (unfold sa; rewrite seqs_len_detach; auto).
-    assert (E : extend st i bpr true (e0 :: els0) f = extend sa i bpr true (e0 :: els0) f).
+    assert (E : extend_gen st i bpr true (e0 :: els0) f x = extend_gen sa i bpr true (e0 :: els0) f x).
     { assert (D : detach sa i = sa) by (unfold sa; apply detach_idem; auto).
-      unfold extend, mk_cache. rewrite D. reflexivity. }
+      unfold extend_gen, mk_cache. rewrite D. reflexivity. }
     rewrite E.
-    destruct (extend_spec sa i bpr true (e0 :: els0) f Wa Hia) as (_ & FR & _).
+    destruct (extend_gen_spec sa i bpr true (e0 :: els0) f x Wa Hia) as (_ & FR & _).
     destruct (FR 0 ltac:(intros; lia)) as (_ & _ & _ & [C4|C4] & _).
     + rewrite C4, (VW0 Hv). lia.
     + destruct (F0 0) as (_ & H2 & _). lia.
-  - unfold extend. cbn [andb].
+  - unfold extend_gen. cbn [andb].
     destruct (fold_append_spec bpr i els st W Hi) as (W2 & _ & _ & _ & _ & _ & M2). cbv zeta in *.
     destruct (M2 Hv) as [E|(V2 & MV)].
     + left. rewrite E. unfold finalize. rewrite (wf_view_no_cache st i W Hi Hv). reflexivity.
@@ -53,6 +53,11 @@ Proof.
       destruct (finalize_spec st2 i W2 Hi2) as (_ & _ & _ & _ & _ & _ & _ & SB). cbv zeta in SB.
       rewrite SB. exact MV.
 Qed.
+
+Lemma extend_view_moved st i bpr pre els f : wf st -> i < length (seqs st) ->
+  is_view (getseq st i) = true ->
+  extend st i bpr pre els f = st \/ length (heap st) <= sbuf (getseq (extend st i bpr pre els f) i).
+Proof. apply extend_gen_view_moved. Qed.
 
 (* ---------------------------------------------------------------- growth: cut or keep, never create *)
 Lemma grow_cases st o i : reachable st -> grows o i -> i < length (seqs st) ->
@@ -88,6 +93,18 @@ Proof.
       * right; left. exact E.
     + destruct (extend_spec st i bpr true (contents st (getseq st j)) ((i =? j) && negb false) W Hi) as (_ & FR & _).
       destruct (FR 0 ltac:(intros; lia)) as (_ & _ & _ & [C4|C4] & _); [right; right; auto|right; left; auto].
+  - (* a refused extend *)
+    destruct (is_live st i) eqn:L; [|left; reflexivity].
+    assert (GEN : forall p g x, extend_gen st i bpr p g false x = st \/
+                   length (heap st) <= sbuf (getseq (extend_gen st i bpr p g false x) i) \/
+                   (is_view (getseq st i) = false /\ sbuf (getseq (extend_gen st i bpr p g false x) i) = sbuf (getseq st i))).
+    { intros p g x. destruct (is_view (getseq st i)) eqn:Ev.
+      - destruct (extend_gen_view_moved st i bpr p g false x W Hi Ev); auto.
+      - destruct (extend_gen_spec st i bpr p g false x W Hi) as (_ & FR & _).
+        destruct (FR 0 ltac:(intros; lia)) as (_ & _ & _ & [C4|C4] & _); [right; right; auto|right; left; auto]. }
+    destruct pre.
+    + destruct good; [left; destruct (match offs _ with [] => _ | _ => _ end); reflexivity|]. cbn [fst]. apply GEN.
+    + destruct (_ && _); [left; reflexivity|]. cbn [fst]. apply GEN.
 Qed.
 
 Lemma cell_valid st y q' : wf st -> y < length (seqs st) -> q' < length (offs (getseq st y)) ->
